@@ -93,10 +93,26 @@ pub fn run(args: &Args, report: &Report) {
         let fake = case.session % 5 == 4;
         cfg.forbid_fake_coins = !fake;
         let mut sess = ChainSession::new(rng, cfg);
-        let opt = GenOptions::default();
-        for _ in 0..blocks {
+        let mut opt = GenOptions::default();
+        for block_no in 0..blocks {
             let parent_da = sess.da_height;
+            // every third block starts with a privileged consensus-parameter upgrade that toggles one
+            // rule between loose and tight; later blocks hand in transactions checked under the older version
+            opt.force_upgrade = block_no % 3 == 1;
             let plan = sess.gen_block_plan(rng, &opt);
+            if let Some((_, old)) = &sess.prev_params {
+                use chaingen::fuel_core_types::fuel_vm::checked_transaction::IntoChecked;
+                for p in plan.txs.iter().filter(|p| p.checked == chaingen::CheckedMode::CheckedOld) {
+                    let h_old = plan.height.saturating_sub(1);
+                    let valid_old = p.tx.clone().into_checked_basic(h_old.into(), old).is_ok();
+                    let valid_new = p.tx.clone().into_checked_basic(plan.height.into(), &sess.params).is_ok();
+                    match (valid_old, valid_new) {
+                        (true, false) => c.report.count("c01.checked_under_old_version_violates_new_rules"),
+                        (true, true) => c.report.count("c01.checked_under_old_version_still_valid"),
+                        _ => c.report.count("c01.checked_under_old_version_invalid_there_too"),
+                    }
+                }
+            }
             let source = source_for(rng);
             let produced = match catch(|| sess.produce(&plan, source)) {
                 Ok(Ok(p)) => p,
@@ -226,6 +242,9 @@ pub fn run(args: &Args, report: &Report) {
         report.require("c01.outcome.failed", args.by_tier(4000, 40000));
         report.require("c01.step.call_store", args.by_tier(5800, 58000));
         report.require("c01.tx.Create", args.by_tier(1900, 19000));
+        report.require("c01.checked_under_old_version_violates_new_rules", args.by_tier(150, 1_500));
+        report.require("c01.checked_under_old_version_still_valid", args.by_tier(150, 1_500));
+        report.require("c01.tx.Upgrade", args.by_tier(1_000, 10_000));
         report.require("c01.blocks_fake_coins", args.by_tier(510, 5100));
     }
     report.finish(
